@@ -312,4 +312,27 @@ def pack (i : Input) : Out :=
   let c := cut r.msgs
   { msgs := c.1, status := if c.2 then .tooLong else r.status }
 
+/-! ### the two excluded points of C09 (F19) as inputs
+
+    Stated here (not in `Props/C09.lean`) so that the driver can print them in the line format and
+    the harness can check that they are, field by field, what it measures on the REAL objects of
+    corpus/C09/f19-oversize-4097.json and corpus/C09/f19-runtime-error.json. -/
+
+def nlri4 (id size : Nat) : Nlri := { id := id, size := size, fam := 1, v4 := true, nh := 1, nhLen := 4 }
+def nlri6 (id size nh : Nat) : Nlri := { id := id, size := size, fam := 3, v4 := false, nh := nh, nhLen := 16 }
+def wd6 (id size : Nat) : Nlri := { id := id, size := size, fam := 3, v4 := false, nh := 0, nhLen := 0 }
+
+/-- 4096-byte session, attribute block of 4069 bytes (so `msg_size = 4`), announces `10.0.0.0/8`
+    (2 bytes) and `11.1.1.1/32` (5 bytes). -/
+def unfitInput : Input :=
+  { M := 4096, attrDef := 4069, attrNoDef := 0, negotiated := [1, 3], simple := [1, 2, 3, 4], famOrder := [],
+    anns := [nlri4 1 2, nlri4 2 5], wds := [], includeWithdraw := true }
+
+/-- 4096-byte session, attribute block of 4013 bytes (`msg_size = 60`): two IPv6 /128 announces
+    with one next hop (MP_REACH_NLRI of 58 bytes) and one IPv6 /128 withdraw (MP_UNREACH_NLRI of 23
+    bytes on its own). -/
+def mixedInput : Input :=
+  { M := 4096, attrDef := 4013, attrNoDef := 0, negotiated := [1, 3], simple := [1, 2, 3, 4], famOrder := [3],
+    anns := [nlri6 1 17 1, nlri6 2 17 1], wds := [wd6 3 17], includeWithdraw := true }
+
 end Exa.Pack
